@@ -38,6 +38,9 @@ CLAIMS = {
     "C08": dict(engine="dbworld", design_ref="5/C08", technique=SIM + "; request corruption and identity faults as injected message faults",
                 text="Real Client -> in-process transport -> real handlers -> real DB. A drawn subset of requests is damaged (method, content type, browser header, truncated / non-JSON / wrongly typed bodies, unknown endpoint) or meets an identity fault (lookup error, anonymous node, malformed grant, empty grants, legacy capability name); each is classified ill-formed / well-formed / unspecified by the generator. Ill-formed: non-2xx, file bytes and state unchanged, zero audit records, no marker bytes. Accepted: exact status map and exact result vs. the model with the rules from the scripted WhoIs answer; audit principal equals that identity.",
                 note="no sockets; net/http's own request parsing is bypassed (requests are handed to mux.ServeHTTP)"),
+    "C14": dict(engine="dbworld", design_ref="5/C14", technique="deterministic simulation: seeded baton schedules over lock/seam park points, histories decided by porcupine (linearizability) against the map model; race detector on free-running replicas of the workload",
+                text="Small concurrent histories from 2-4 clients on shared names, every interleaving decision (which parked goroutine proceeds at each mutex acquisition, audit write, identity lookup, transport hop) drawn from the tape; invoke/return stamped with a global sequence number; porcupine decides each history exactly against the sequential model with the final state appended. A second stage runs the same workloads unscheduled under -race.",
+                note="park points are lock acquisitions and seams: code between two park points runs atomically in the baton stage; data races are the race stage's job"),
     "C09": dict(engine="dbworld", design_ref="5/C09", technique=SIM,
                 text="Seeded histories of put/activate/delete/restart interleaved with conditional gets carrying every kind of V, judged against the model at the DB API, through handler+Client, and for FileClient on files generated from the model.",
                 note="sequential; trusts the map model"),
